@@ -155,6 +155,28 @@ func checkC14(e *Env) {
 		}
 	}
 	if nr == nil {
+		// the table is allocated by a helper from one of its parameters: the
+		// count is the argument Encode passes
+		for _, c := range unknownHelperCalls(e, enc) {
+			h := c.Call.StaticCallee()
+			for _, b := range h.Blocks {
+				for _, in := range b.Instrs {
+					ms, ok := in.(*ssa.MakeSlice)
+					if !ok || !strings.HasPrefix(ms.Type().String(), "[][]byte") {
+						continue
+					}
+					if p, isParam := ms.Len.(*ssa.Parameter); isParam {
+						for i, hp := range h.Params {
+							if hp == p {
+								nr = c.Call.Args[i]
+							}
+						}
+					}
+				}
+			}
+		}
+	}
+	if nr == nil {
 		e.R.Undecided("TABLE", "Encode:record-count", e.P.Pos(enc.Pos()), "cannot find the proof table make([][]byte, numRecords)")
 	} else {
 		type pt struct{ l, rs, want int }
@@ -201,12 +223,12 @@ func checkC14(e *Env) {
 	tTop := "call:(mice.Encoding).parseDigestHeader(param:enc,param:digestHeaderValue)#0"
 	rejectionsListed(e, "REJECT", nd, gate.Outcome{Kind: gate.ErrNil, Idx: 1}, noCfg, []gate.Gate{
 		gate.CallOK("N.digest", "(mice.Encoding).parseDigestHeader", "param:enc", "param:digestHeaderValue"),
-		gate.CallOK("N.read-size", "binary.Read", "param:r", "global:binary.BigEndian", "local:recordSize"),
-		gate.Cmp("N.nonzero", "local:recordSize", token.NEQ, "const:0"),
-		gate.Cmp("N.max", "local:recordSize", token.LEQ, "param:maxRecordSize"),
+		readSizeOK(),
+		gate.Cmp("N.nonzero", tRecSize, token.NEQ, "const:0"),
+		gate.Cmp("N.max", tRecSize, token.LEQ, "param:maxRecordSize"),
 		gate.CallBool("N.empty-valid", "mice.validateRecord", true, "const:nil", tTop, "const:true"),
 		// the empty-stream shortcut: an unreadable size is refused unless it is the EOF of a non-draft-02 stream
-		errIs("N.empty-eof", "call:binary.Read(param:r,global:binary.BigEndian,local:recordSize)", "global:io.EOF"),
+		errIs("N.empty-eof", tReadSizeErr, "global:io.EOF"),
 		gate.Cmp("N.empty-not-draft02", "param:enc", token.NEQ, `const:"mi-sha256-draft2"`),
 	}, "digest header parses, record size readable, 0 < record size <= maxRecordSize, empty stream matches SHA-256(0x00)")
 	// the decoder side of the round trip: record+proof units, last unit short,
@@ -243,6 +265,25 @@ func reachableFromLoopBody(ctx *gate.Ctx, fn *ssa.Function, in ssa.Instruction) 
 // it is <= len(buf), and len(buf) otherwise.
 func clampPhi(e *Env, enc *ssa.Function) {
 	key := "signedexchange/mice.(Encoding).Encode:record-upper-bound"
+	// (in Encode, or in a helper the rule tables do not know, its parameters
+	// standing for Encode's arguments)
+	for _, c := range unknownHelperCalls(e, enc) {
+		h := c.Call.StaticCallee()
+		has := false
+		for _, b := range h.Blocks {
+			for _, in := range b.Instrs {
+				if ph, ok := in.(*ssa.Phi); ok && prov.CanonLocal(ph.Parent(), ph.Comment) == "high" {
+					has = true
+				}
+			}
+		}
+		if has {
+			prov.PushSubst(h, &c.Call)
+			defer prov.PopSubst()
+			enc = h
+			break
+		}
+	}
 	for _, b := range enc.Blocks {
 		for _, in := range b.Instrs {
 			ph, ok := in.(*ssa.Phi)
@@ -321,10 +362,32 @@ func encodeArms(enc *ssa.Function) (last, mid []*ssa.Call) {
 	return
 }
 
+// proofHost: the function that holds the hashing arms of the proof loop:
+// Encode itself, or a helper the rule tables do not know that Encode calls
+// (computeProofs(buf, recordSize, n)).  For a helper the substitution frame is
+// left pushed (parameters render as Encode's arguments); the caller must call
+// the returned function when done.
+func proofHost(e *Env, enc *ssa.Function) (*ssa.Function, func()) {
+	if l, m := encodeArms(enc); l != nil && m != nil {
+		return enc, func() {}
+	}
+	for _, c := range unknownHelperCalls(e, enc) {
+		h := c.Call.StaticCallee()
+		prov.PushSubst(h, &c.Call)
+		if l, m := encodeArms(h); l != nil && m != nil {
+			return h, prov.PopSubst
+		}
+		prov.PopSubst()
+	}
+	return enc, func() {}
+}
+
 // proofChain: hash inputs of the proof loop, which visits the records from the
 // last one backwards (counting i up with rec = N-i-1, or counting rec down).
 func proofChain(e *Env, enc *ssa.Function) {
 	name := "signedexchange/mice.(Encoding).Encode"
+	enc, done := proofHost(e, enc)
+	defer done()
 	lw, mw := encodeArms(enc)
 	if lw == nil || mw == nil {
 		e.R.Undecided("CHAIN", name+":hash-blocks", e.P.Pos(enc.Pos()), "cannot identify the two hashing arms of the proof loop")
